@@ -1151,6 +1151,85 @@ theorem thompson_rows_valid (g : List Rat) (hne : g ≠ []) (hp : ∀ x ∈ g, 0
 theorem thompson_reward_mle (c : Cell) (t sd : Rat) (h : c.n < 2) : thompsonReward c t sd = c.mean := by
   simp [thompsonReward, h]
 
+theorem sumQ_nonneg (l : List Rat) (h : ∀ x ∈ l, 0 ≤ x) : 0 ≤ sumQ l := by
+  induction l with
+  | nil => simp [sumQ]
+  | cons x xs ih =>
+    simp only [sumQ]
+    have := h x (by simp)
+    have := ih (fun y hy => h y (by simp [hy]))
+    linarith
+
+/-- the sum of squared deviations of recorded data is never negative: the square root in the Thompson reward
+    rule always has a non-negative argument -/
+theorem sqDevOf_nonneg (recs : List (Nat × Rat)) : 0 ≤ sqDevOf recs := by
+  unfold sqDevOf
+  apply sumQ_nonneg
+  intro x hx
+  simp only [List.mem_map] at hx
+  obtain ⟨y, _, rfl⟩ := hx
+  exact mul_self_nonneg _
+
+/-- **thompson_post_documented**: on a pair holding the records `recs` with at least two of them, the reward
+    posterior that `ThompsonModel::sync` / `CooperativeThompsonModel::syncRow` draw from is the documented Student-t:
+    location = empirical mean, `visits − 1 ≥ 1` degrees of freedom, squared scale = `Σ(r−mean)² / (n(n−1))` =
+    (sample variance)/n; its divisor is non-zero and the squared scale is non-negative, so location, scale and
+    degrees of freedom are all finite and valid distribution parameters. -/
+theorem thompson_post_documented (w : Nat) (p : Pair) (recs : List (Nat × Rat)) (he : ExpOK w p recs)
+    (h2 : 2 ≤ recs.length) :
+    thompsonPost p.cell = some { loc := meanOf recs,
+                                 scale2 := sqDevOf recs / (((recs.length * (recs.length - 1) : Nat)) : Rat),
+                                 dof := recs.length - 1 } ∧
+    (0 : Rat) < ((recs.length * (recs.length - 1) : Nat) : Rat) ∧
+    0 ≤ sqDevOf recs / (((recs.length * (recs.length - 1) : Nat)) : Rat) ∧
+    1 ≤ recs.length - 1 ∧
+    sqDevOf recs / (((recs.length * (recs.length - 1) : Nat)) : Rat)
+      = sqDevOf recs / ((recs.length - 1 : Nat) : Rat) / (recs.length : Rat) := by
+  obtain ⟨hn, hm, hq, _⟩ := he.spec
+  have hpos : 0 < recs.length * (recs.length - 1) := Nat.mul_pos (by omega) (by omega)
+  have hposQ : (0 : Rat) < ((recs.length * (recs.length - 1) : Nat) : Rat) := by exact_mod_cast hpos
+  refine ⟨?_, hposQ, div_nonneg (sqDevOf_nonneg recs) (le_of_lt hposQ), by omega, ?_⟩
+  · unfold thompsonPost
+    have : ¬ recs.length < 2 := by omega
+    simp only [hn, hm, hq, this, if_false]
+  · have h1 : ((recs.length : Nat) : Rat) ≠ 0 := by
+      have : recs.length ≠ 0 := by omega
+      exact_mod_cast this
+    have h3 : ((recs.length - 1 : Nat) : Rat) ≠ 0 := by
+      have : recs.length - 1 ≠ 0 := by omega
+      exact_mod_cast this
+    rw [Nat.cast_mul]
+    field_simp
+
+/-- below two visits there is no posterior: the exposed reward is the empirical mean (0 on no data) -/
+theorem thompson_post_none (w : Nat) (p : Pair) (recs : List (Nat × Rat)) (he : ExpOK w p recs) (h2 : recs.length < 2)
+    (gs : List Rat) (t sd : Rat) :
+    thompsonPost p.cell = none ∧ (p.thompsonSync gs t sd).rew = meanOf recs := by
+  obtain ⟨hn, hm, _, _⟩ := he.spec
+  have : p.cell.n < 2 := by rw [hn]; exact h2
+  simp [thompsonPost, Pair.thompsonSync, thompsonReward, this, hm]
+
+/-- the Dirichlet parameters handed to the gamma sampler are all at least 1/2: valid shape parameters -/
+theorem dirichletParams_pos (cnt : List Nat) : ∀ x ∈ dirichletParams cnt, (1 : Rat) / 2 ≤ x := by
+  intro x hx
+  simp only [dirichletParams, List.mem_map] at hx
+  obtain ⟨c, _, rfl⟩ := hx
+  have : (0 : Rat) ≤ (c : Rat) := by positivity
+  linarith
+
+/-- **thompson_sync_valid**: whatever positive gamma draws and whatever Student-t draw the engine produced, a
+    Thompson sync leaves a probability row, and with two or more records the reward `loc + t·sd` where `sd² =` the
+    posterior's squared scale -/
+theorem thompson_sync_valid (w : Nat) (p : Pair) (recs : List (Nat × Rat)) (he : ExpOK w p recs)
+    (gs : List Rat) (hne : gs ≠ []) (hp : ∀ x ∈ gs, 0 < x) (t sd : Rat) :
+    (∀ y ∈ (p.thompsonSync gs t sd).row, 0 < y) ∧ sumQ (p.thompsonSync gs t sd).row = 1 ∧
+    (2 ≤ recs.length → (p.thompsonSync gs t sd).rew = meanOf recs + t * sd) := by
+  obtain ⟨a, b, _⟩ := thompson_rows_valid gs hne hp
+  refine ⟨a, b, fun h2 => ?_⟩
+  obtain ⟨hn, hm, _, _⟩ := he.spec
+  have : ¬ p.cell.n < 2 := by rw [hn]; omega
+  simp [Pair.thompsonSync, thompsonReward, this, hm]
+
 example : normalize [1/2, 3/2, 2] = [1/8, 3/8, 1/2] := by norm_num [normalize, sumQ]   -- test on literals
 
 end AITB.Exp
